@@ -161,9 +161,9 @@ func judgeMatrix(im *bimg, m *gozxing.BitMatrix, e error) (suffix, detail string
 					pos = "first-column"
 				}
 				if want {
-					return "black-missed/" + pos, fmt.Sprintf("pixel (%d,%d) has luminance 0 but is white in the black matrix", x, y)
+					return "black-missed-" + pos, fmt.Sprintf("pixel (%d,%d) has luminance 0 but is white in the black matrix", x, y)
 				}
-				return "white-set/" + pos, fmt.Sprintf("pixel (%d,%d) has luminance 255 but is black in the black matrix", x, y)
+				return "white-set-" + pos, fmt.Sprintf("pixel (%d,%d) has luminance 255 but is black in the black matrix", x, y)
 			}
 		}
 	}
@@ -268,6 +268,11 @@ func runBin(l *mc.Local, im *bimg, bin string, extras bool) (suffix, detail stri
 	}
 	reuse := gozxing.NewBitArray(im.w + 3)
 	for y := 0; y < im.h; y++ {
+		if bin == "hybrid" && !extras {
+			// the local binariser inherits the one-row method of the global one; where the
+			// image family is large the rows are fetched through the global binariser only
+			break
+		}
 		var buf *gozxing.BitArray
 		if y%2 == 1 {
 			reuse.SetRange(0, im.w+3)
@@ -327,13 +332,13 @@ func runBin(l *mc.Local, im *bimg, bin string, extras bool) (suffix, detail stri
 		}
 		mc1, ec1 := bc.GetBlackMatrix()
 		if s, d := judgeMatrix(want, mc1, ec1); s != "" {
-			return "bitmap-crop/" + s, fmt.Sprintf("after BinaryBitmap.Crop(%d,%d,%d,%d): %s", r.l, r.t, r.w, r.h, d)
+			return "bitmap-crop", fmt.Sprintf("after BinaryBitmap.Crop(%d,%d,%d,%d): %s", r.l, r.t, r.w, r.h, d)
 		}
 		sc, _ := src.Crop(r.l, r.t, r.w, r.h)
 		direct, _ := gozxing.NewBinaryBitmap(newBin(bin, sc))
 		md, ed := direct.GetBlackMatrix()
 		if !sameResult(mc1, ec1, md, ed) {
-			return "bitmap-crop/differs-from-direct", fmt.Sprintf("BinaryBitmap.Crop(%d,%d,%d,%d) and binarising the cropped source disagree", r.l, r.t, r.w, r.h)
+			return "bitmap-crop", fmt.Sprintf("BinaryBitmap.Crop(%d,%d,%d,%d) and binarising the cropped source disagree", r.l, r.t, r.w, r.h)
 		}
 		l.Count("bitmap_crops", 1)
 	}
@@ -344,13 +349,13 @@ func runBin(l *mc.Local, im *bimg, bin string, extras bool) (suffix, detail stri
 	}
 	mr, er := br.GetBlackMatrix()
 	if s, d := judgeMatrix(want, mr, er); s != "" {
-		return "bitmap-rotate/" + s, "after BinaryBitmap.RotateCounterClockwise: " + d
+		return "bitmap-rotate", "after BinaryBitmap.RotateCounterClockwise: " + d
 	}
 	sr, _ := src.RotateCounterClockwise()
 	direct, _ := gozxing.NewBinaryBitmap(newBin(bin, sr))
 	md, ed := direct.GetBlackMatrix()
 	if !sameResult(mr, er, md, ed) {
-		return "bitmap-rotate/differs-from-direct", "BinaryBitmap.RotateCounterClockwise and binarising the rotated source disagree"
+		return "bitmap-rotate", "BinaryBitmap.RotateCounterClockwise and binarising the rotated source disagree"
 	}
 	l.Count("bitmap_rotations", 1)
 	return "", ""
@@ -369,11 +374,18 @@ func checkBilevel(l *mc.Local, im *bimg, class string, extras bool) {
 			continue
 		}
 		cs := bcase{"bin", class, im.w, im.h, im.rows()}
+		rank := fmt.Sprintf("%07d/%s/%v", im.w*im.h, class, cs.Rows)
 		if pm != "" {
-			chk.Violation("C17/panic/"+site+"/binarize-"+bin+"-"+mode, fmt.Sprintf("%s binariser panicked on a %dx%d bilevel image (%s): %s", bin, im.w, im.h, class, pm), cs)
+			what := fmt.Sprintf("%s binariser panicked on a %dx%d bilevel image (%s): %s", bin, im.w, im.h, class, pm)
+			report("C17/panic/"+site+"/binarize-"+bin+"-"+mode, rank, func() string { return what }, cs)
 			continue
 		}
-		chk.Violation("C17/binarize/"+bin+"/"+mode+"/"+s, fmt.Sprintf("%s binariser, %dx%d bilevel image (%s): %s", bin, im.w, im.h, class, d), cs)
+		what := fmt.Sprintf("%s binariser, %dx%d bilevel image (%s): %s", bin, im.w, im.h, class, d)
+		key := "C17/binarize/" + bin + "/" + mode + "/" + s
+		if strings.HasPrefix(s, "bitmap-") {
+			key = "C17/binarize/" + bin + "/" + s // BinaryBitmap.Crop / RotateCounterClockwise: one key each
+		}
+		report(key, rank, func() string { return what }, cs)
 	}
 }
 
@@ -393,7 +405,7 @@ func runTiny() {
 			}
 		}
 	}
-	chk.Range(fmt.Sprintf("binarisers: every bilevel image of every shape w x h with w*h <= %d (%d images), incl. BinaryBitmap crop/rotate", maxPix, total), len(chunks),
+	rng(fmt.Sprintf("binarisers: every bilevel image of every shape w x h with w*h <= %d (%d images), incl. BinaryBitmap crop/rotate", maxPix, total), len(chunks),
 		func(i int) string { return fmt.Sprint(chunks[i]) },
 		func(l *mc.Local, i int) {
 			c := chunks[i]
@@ -462,12 +474,12 @@ func runFlipped() {
 			jobs = append(jobs, job{s[0], s[1], f})
 		}
 	}
-	name := "binarisers: sizes 38..58 x 38..58, fills white/black with one flipped pixel at every position, fills checker/vstripe/hstripe with one flipped pixel at every lattice position (edges, +-1, multiples of 8, clamped last block), plus the unflipped fill; BinaryBitmap crop/rotate at lattice positions"
+	name := "binarisers: sizes 38..58 x 38..58, fills white/black with one flipped pixel at every position, fills checker/vstripe/hstripe with one flipped pixel at every lattice position (edges, +-1, multiples of 8, clamped last block), plus the unflipped fill; BinaryBitmap crop/rotate and black rows through the local binariser at lattice positions only"
 	if chk.Quick() {
 		name = "binarisers: sizes {39,40,41,47,48}^2, fills white/black/checker/vstripe/hstripe with one flipped pixel at every lattice position (edges, +-1, multiples of 8, clamped last block), plus the unflipped fill; BinaryBitmap crop/rotate"
 	}
 	quick := chk.Quick()
-	chk.Range(name, len(jobs),
+	rng(name, len(jobs),
 		func(i int) string { return fmt.Sprint(jobs[i]) },
 		func(l *mc.Local, i int) {
 			j := jobs[i]
@@ -552,7 +564,7 @@ func runSymbols() {
 			}
 		}
 	}
-	chk.Range(fmt.Sprintf("binarisers: symbols rendered by the 11 writers (Encode(content, format, 0, 0, nil); %d symbol contents), scales 1..4, 1-D symbols at bar heights {1, 37}, padded with white to every width and height in {d, d+1, d+5} and {38,39,40,41,47,48} above d; BinaryBitmap crop/rotate", len(jobs)/4), len(jobs),
+	rng(fmt.Sprintf("binarisers: symbols rendered by the 11 writers (Encode(content, format, 0, 0, nil); %d symbol contents), scales 1..4, 1-D symbols at bar heights {1, 37}, padded with white to every width and height in {d, d+1, d+5} and {38,39,40,41,47,48} above d; BinaryBitmap crop/rotate", len(jobs)/4), len(jobs),
 		func(i int) string { return fmt.Sprintf("%s %q x%d", jobs[i].spec.name, jobs[i].content, jobs[i].scale) },
 		func(l *mc.Local, i int) {
 			j := jobs[i]
